@@ -87,12 +87,21 @@ fn lst_of(id: i64) -> Option<Vec<Option<i32>>> {
     }
 }
 
+fn ll_of(id: i64) -> Option<Vec<Option<Vec<Option<i32>>>>> {
+    if id % 17 == 3 { return None; }
+    Some((id..id + id % 3).map(|j| {
+        if j % 7 == 0 { None } else { Some((j..j + j % 3).map(|e| if e % 6 == 0 { None } else { Some(e as i32) }).collect()) }
+    }).collect())
+}
+
 fn file_schema() -> Arc<Schema> {
     Arc::new(Schema::new(vec![
         Field::new("id", DataType::Int64, false),
         Field::new("val", DataType::Int32, true),
         Field::new("s", DataType::Utf8, true),
         Field::new("lst", DataType::List(Arc::new(Field::new("item", DataType::Int32, true))), true),
+        Field::new("ll", DataType::List(Arc::new(Field::new("item",
+            DataType::List(Arc::new(Field::new("item", DataType::Int32, true))), true))), true),
     ]))
 }
 
@@ -109,7 +118,23 @@ fn make_batch(schema: &Arc<Schema>, nullmod: i64, start: i64, n: i64) -> RecordB
         }
     }
     let lst: ArrayRef = Arc::new(lb.finish());
-    RecordBatch::try_new(schema.clone(), vec![id, val, s, lst]).expect("batch")
+    let mut llb = ListBuilder::new(ListBuilder::new(Int32Builder::new()));
+    for i in &ids {
+        match ll_of(*i) {
+            None => llb.append(false),
+            Some(inners) => {
+                for inner in inners {
+                    match inner {
+                        None => llb.values().append(false),
+                        Some(es) => { for e in es { llb.values().values().append_option(e); } llb.values().append(true); }
+                    }
+                }
+                llb.append(true);
+            }
+        }
+    }
+    let ll: ArrayRef = Arc::new(llb.finish());
+    RecordBatch::try_new(schema.clone(), vec![id, val, s, lst, ll]).expect("batch")
 }
 
 /// file parameters (group 0): nullmod, page row limit, write batch size, writer version (1|2),
@@ -159,7 +184,7 @@ fn cached_file(p: &Group, rgs: &Group) -> Bytes {
 fn make_predicate(desc: &parquet::schema::types::SchemaDescriptor, nullmod: i64, q: &[i64]) -> Box<dyn ArrowPredicate> {
     let (kind, p1, p2, extra) = (q[0], q[1], q[2], q[3]);
     let need = if kind == 0 || kind == 3 { 0usize } else { 1usize };
-    let mut leaves: Vec<usize> = (0..4).filter(|i| *i == need || (extra >> i) & 1 == 1).collect();
+    let mut leaves: Vec<usize> = (0..5).filter(|i| *i == need || (extra >> i) & 1 == 1).collect();
     leaves.sort();
     let proj = ProjectionMask::leaves(desc, leaves);
     let _ = nullmod;
@@ -188,8 +213,8 @@ fn run_read(a: &Args) -> Args {
     let mut b = match ParquetRecordBatchReaderBuilder::try_new_with_options(file, opts) { Ok(b) => b, Err(_) => return err(E_INVALID) };
     let desc = b.metadata().file_metadata().schema_descr_ptr();
     let proj_bits = to_i64s(&a[8]);
-    let leaves: Vec<usize> = (0..4).filter(|i| proj_bits[*i] != 0).collect();
-    if leaves.len() < 4 || hp[4] >= 0 {
+    let leaves: Vec<usize> = (0..5).filter(|i| proj_bits[*i] != 0).collect();
+    if leaves.len() < 5 || hp[4] >= 0 {
         b = b.with_projection(if hp[4] == 1 { ProjectionMask::roots(&desc, leaves.clone()) } else { ProjectionMask::leaves(&desc, leaves.clone()) });
     }
     if hp[3] != 0 { b = b.with_row_groups(to_i64s(&a[2]).iter().map(|x| *x as usize).collect()); }
@@ -208,7 +233,12 @@ fn run_read(a: &Args) -> Args {
     };
     let reader = match b.build() { Ok(r) => r, Err(_) => return err(E_INVALID) };
     let (mut rows, mut big) = (0usize, 0usize);
-    let (mut ids, mut vals, mut strs, mut lsts): (Group, Group, Group, Group) = (vec![], vec![], vec![], vec![]);
+    let (mut ids, mut vals, mut strs, mut lsts, mut lls): (Group, Group, Group, Group, Group) = (vec![], vec![], vec![], vec![], vec![]);
+    let push_list = |out: &mut Group, e: ArrayRef| {
+        let e = e.as_any().downcast_ref::<Int32Array>().expect("item type").clone();
+        out.push(BigInt::from(e.len()));
+        out.extend(e.iter().map(|x| BigInt::from(x.map(|x| x as i64).unwrap_or(NULL_I))));
+    };
     for batch in reader {
         let batch = match batch { Ok(x) => x, Err(_) => return err(E_IO) };
         rows += batch.num_rows();
@@ -234,14 +264,23 @@ fn run_read(a: &Args) -> Args {
             let c = c.as_any().downcast_ref::<ListArray>().expect("lst type");
             for i in 0..c.len() {
                 if c.is_null(i) { lsts.push(BigInt::from(-1)); continue; }
-                let e = c.value(i);
-                let e = e.as_any().downcast_ref::<Int32Array>().expect("item type");
-                lsts.push(BigInt::from(e.len()));
-                lsts.extend(e.iter().map(|x| BigInt::from(x.map(|x| x as i64).unwrap_or(NULL_I))));
+                push_list(&mut lsts, c.value(i));
+            }
+        }
+        if let Some(c) = batch.column_by_name("ll") {
+            let c = c.as_any().downcast_ref::<ListArray>().expect("ll type");
+            for i in 0..c.len() {
+                if c.is_null(i) { lls.push(BigInt::from(-1)); continue; }
+                let inner = c.value(i);
+                let inner = inner.as_any().downcast_ref::<ListArray>().expect("inner type").clone();
+                lls.push(BigInt::from(inner.len()));
+                for j in 0..inner.len() {
+                    if inner.is_null(j) { lls.push(BigInt::from(-1)); } else { push_list(&mut lls, inner.value(j)); }
+                }
             }
         }
     }
-    vec![g(rows), g(big), ids, vals, strs, lsts]
+    vec![g(rows), g(big), ids, vals, strs, lsts, lls]
 }
 
 // ------------------------------------------------------------------------------------------------
@@ -624,7 +663,7 @@ fn gen_reads(files: usize, reads: usize, r: &mut Rng, emit: &mut dyn FnMut(Case)
             let np = match r.below(6) { 0 | 1 => 0, 2 | 3 => 1, 4 => 2, _ => 3 };
             let mut preds: Vec<i64> = Vec::new();
             for _ in 0..np {
-                let extra = if r.chance(1, 3) { r.below(16) as i64 } else { 0 };
+                let extra = if r.chance(1, 3) { r.below(32) as i64 } else { 0 };
                 match r.below(8) {
                     0 => preds.extend([0, 1, 1, extra]),                                   // always true
                     1 | 2 => { let k = 2 + r.below(6) as i64; preds.extend([0, k, r.below(k as usize) as i64, extra]) }
@@ -640,9 +679,10 @@ fn gen_reads(files: usize, reads: usize, r: &mut Rng, emit: &mut dyn FnMut(Case)
             let offset: Vec<usize> = if r.chance(1, 3) { vec![*r.pick(&[0, 1, 2, page_rows, nrows / 2, nrows, nrows + 1, rb1, rb1, rb1, rb1, rb1])] } else { vec![] };
             let limit: Vec<usize> = if r.chance(1, 3) { vec![*r.pick(&[0, 1, 2, page_rows, nrows / 2, nrows, nrows + 5, rb2, rb2, rb2, rb2, rb2])] } else { vec![] };
             let bs = *r.pick(&[1usize, 2, 3, 7, 8, 64, 100, 1024, 8192]);
-            let proj: Vec<i64> = match r.below(6) {
-                0 => vec![1, 0, 0, 0], 1 => vec![1, 1, 1, 1], 2 => vec![1, 0, 0, 1], 3 => vec![0, 0, 0, 1],
-                _ => { let v: Vec<i64> = (0..4).map(|_| r.below(2) as i64).collect(); if v.iter().all(|x| *x == 0) { vec![0, 0, 1, 0] } else { v } }
+            let proj: Vec<i64> = match r.below(8) {
+                0 => vec![1, 0, 0, 0, 0], 1 => vec![1, 1, 1, 1, 1], 2 => vec![1, 0, 0, 1, 0], 3 => vec![0, 0, 0, 1, 0],
+                4 => vec![1, 0, 0, 0, 1], 5 => vec![0, 0, 0, 0, 1],
+                _ => { let v: Vec<i64> = (0..5).map(|_| r.below(2) as i64).collect(); if v.iter().all(|x| *x == 0) { vec![0, 0, 1, 0, 0] } else { v } }
             };
             let policy = r.below(4) as i64;
             let pidx = if no_oidx { r.below(2) as i64 } else { r.below(3) as i64 };
